@@ -182,21 +182,90 @@ def case_key(case):
                                                     fmt_disk(f["d"]), f["pres"]["k"], f["pres"]["b"])
 
 
-def validate_events(ctx, variant, cases, events, name, max_rounds=6, chunk=15000):
-    """I->T: TLC checks the recorded events against TraceBootTry. Returns (violations, n_cases_accepted, n_lines)."""
-    violations = []
-    bad = set()
+class Deviation:
+    """A real step that is not the spec's step. NOT yet a verdict: classify() decides with the statement oracle."""
+
+    def __init__(self, case, kind, why, real=None, rejected=None):
+        self.case = case          # the act / init case (reachable spec state + action / initramfs entry)
+        self.kind = kind          # write-order | initramfs | inuse | error | trace
+        self.why = why
+        self.real = real or []    # act: [(op, post-state)] of the REAL call, in order
+        self.rejected = rejected
+
+    def ident(self):
+        return (self.kind, case_key(self.case))
+
+
+def expected_writes(full):
+    d = dict(full["d"])
+    out = []
+    for w in full["act"]["ws"]:
+        d = dict(d)
+        d.update(w["upd"])
+        out.append((w["op"], d))
+    return out
+
+
+def _norm(d):
+    d = dict(d)
+    d["ck"] = list(d.get("ck") or [])
+    return d
+
+
+def expected_inuse(variant, d):
+    k = {d["kcur"]} | ({d["ktry"]} if d["ktry"] else set())
+    b = {d["bcur"]} | ({d["btry"]} if d["btry"] and (variant == "UC16" or d["bst"] != "") else set())
+    return sorted(k), sorted(b)
+
+
+def selectable(variant, d):
+    k = {d["kcur"]} | ({d["ktry"]} if d["kst"] != "" and d["ktry"] else set())
+    st = d["kst"] if variant == "UC16" else d["bst"]
+    b = {d["bcur"]} | ({d["btry"]} if st == "try" and d["btry"] else set())
+    return k, b
+
+
+def direct_deviations(variant, cases, events):
+    """Python-side comparison of EVERY act case with the plan TLC computed (write kinds, every intermediate state,
+    boot.InUse, errors). Finds all deviating cases at once (TLC trace validation stops at the first per run)."""
+    by = {}
     for e in events:
-        if e.get("ev") == "Err":
-            c = cases[e["case"]]
-            bad.add(e["case"])
-            violations.append(Violation(
-                key="%s: real call failed" % case_key(c),
-                desc="real boot code returned an error / broke the prefix cross-check where the spec expects a "
-                     "plain write sequence: %s" % e.get("msg"),
-                replay={"case": c, "event": e}))
-    tev = [e for e in events if e.get("ev") not in ("Beh",)]
-    # chunk on case boundaries so that one TLC run never has to hold more than ~chunk lines
+        if e.get("ev") in ("W", "End", "Err", "InUse"):
+            by.setdefault(e["case"], []).append(e)
+    devs = []
+    for c in cases:
+        if c["kind"] != "act":
+            continue
+        ev = by.get(c["id"], [])
+        full = c["full"]
+        real = [(e["op"], _norm(e["st"])) for e in ev if e["ev"] == "W"]
+        errs = [e for e in ev if e["ev"] == "Err"]
+        exp = [(op, _norm(st)) for op, st in expected_writes(full)]
+        iu = [e for e in ev if e["ev"] == "InUse"]
+        if iu:
+            ek, eb = expected_inuse(variant, full["d"])
+            rk = sorted(r for r in iu[0]["k"] if r <= 3)
+            rb = sorted(r for r in iu[0]["b"] if r <= 3)
+            if (rk, rb) != (ek, eb):
+                devs.append(Deviation(c, "inuse", "boot.InUse says kernel %s base %s, spec %s %s" % (rk, rb, ek, eb),
+                                      rejected=iu[0]))
+        if errs:
+            devs.append(Deviation(c, "error", "real call failed / prefix cross-check: %s" % errs[0].get("msg"), real=real,
+                                  rejected=errs[0]))
+        elif real != exp:
+            devs.append(Deviation(c, "write-order", "spec plan %s, real writes %s" % ([o for o, _ in exp], [o for o, _ in real]),
+                                  real=real))
+        elif not any(e["ev"] == "End" for e in ev):
+            devs.append(Deviation(c, "error", "no End event", real=real))
+    return devs
+
+
+def validate_events(ctx, variant, cases, events, name, skip=(), max_rounds=6, chunk=15000):
+    """I->T: TLC checks the recorded events against TraceBootTry (cases in `skip` are left out: already known to
+    deviate). Returns (deviations, n_cases_accepted, n_lines)."""
+    devs = []
+    bad = set(skip)
+    tev = [e for e in events if e.get("ev") not in ("Beh", "Pipe")]
     chunks, cur, last = [], [], None
     for e in tev:
         if e["case"] != last and len(cur) >= chunk:
@@ -225,24 +294,129 @@ def validate_events(ctx, variant, cases, events, name, max_rounds=6, chunk=15000
             mine = [e for e in lines if e["case"] == ev["case"]]
             what = "invariant %s violated by the real step" % tv["invariant"] if tv["invariant"] else \
                 "real step is not a step of the spec"
-            if c["kind"] == "act":
-                plan = [w["op"] for w in c["full"]["act"]["ws"]]
-                real = [e["op"] for e in mine if e["ev"] == "W"]
-                desc = "%s: %s; spec write plan %s, real writes %s; rejected event %s" % (
-                    case_key(c), what, plan, real, json.dumps(ev, sort_keys=True)[:400])
-            else:
-                desc = "%s: %s; rejected event %s" % (case_key(c), what, json.dumps(ev, sort_keys=True)[:400])
-            violations.append(Violation(key="%s: %s" % (case_key(c), ev["ev"]), desc=desc,
-                                        replay={"case": c, "events": mine, "rejected": ev}))
+            kind = "initramfs" if c["kind"] == "init" else "trace"
+            devs.append(Deviation(c, kind, "%s; rejected event %s" % (what, json.dumps(ev, sort_keys=True)[:300]),
+                                  real=[(e["op"], _norm(e["st"])) for e in mine if e["ev"] == "W"], rejected=ev))
             bad.add(ev["case"])
-        if len(violations) >= 3 * max_rounds:
-            break
-    ncases = len({e["case"] for e in tev}) - len(bad)
-    return violations, ncases, n_lines
+    ncases = len({e["case"] for e in tev} - bad)
+    return devs, ncases, n_lines
 
 
-def beh_violations(cases, events):
-    """T->I behaviour replays: verdict lines of the driver."""
+def _allowed(full):
+    h = full["h"]
+    gk, gb = set(h["goodk"]), set(h["goodb"])
+    if full["act"]["name"] == "Mark":      # the combination that is running reached snapd: it is what Mark declares good
+        gk.add(full["boot"]["rk"])
+        gb.add(full["boot"]["rb"])
+    ak = gk | ({h["trialk"]} - {0})
+    ab = gb | ({h["trialb"]} - {0})
+    return gk, gb, ak, ab
+
+
+def _judge(pipe, ak, ab, excused):
+    """Statement on what the real pipeline did: -> None | (clause, text)."""
+    p1, p2 = pipe.get(1), pipe.get(2)
+    for p, what in ((p1, "every boot attempt works"), (p2, "boots of revisions under trial fail")):
+        if p is None:
+            continue
+        if p["end"] == "halt" and not excused:
+            return "NeverStuck", "boot stops: %s (%s)" % (p["boots"][-1].get("msg"), what)
+        if p["end"] == "loop":
+            return "FallbackWorks", "no known-good boot within 8 attempts: %s (%s)" % ([b["res"] for b in p["boots"]], what)
+    if p1 and p1["end"] == "ok":
+        b = p1["boots"][-1]
+        if b["rk"] not in ak or b["rb"] not in ab or b["mk"] != b["rk"]:
+            return "OnlyGoodOrTried", "boots kernel image %d (kernel snap %d) + base %d; known-good or under trial: kernel %s base %s" % (
+                b["rk"], b["mk"], b["rb"], sorted(ak), sorted(ab))
+    return None
+
+
+def classify(ctx, variant, devs, name):
+    """Statement oracle for deviations (FRAMEWORK soundness rule 1): a real step that differs from the spec is a
+    VIOLATION only if the real prefix / resulting states break the property statement when the REAL initramfs code
+    (+ firmware table) boots from them; otherwise it is an unexplained deviation (spec or harness to be triaged)."""
+    violations, unexplained = [], []
+    pipes = []          # (deviation, label, case dict)
+    seen = set()
+    uniq = []
+    for dv in devs:
+        if dv.ident() in seen:
+            continue
+        seen.add(dv.ident())
+        uniq.append(dv)
+    for dv in uniq:
+        full = dv.case["full"]
+        gk, gb, ak, ab = _allowed(full)
+        if dv.kind == "inuse":
+            sk, sb = selectable(variant, full["d"])
+            rk, rb = set(dv.rejected["k"]), set(dv.rejected["b"])
+            if not sk <= rk or not sb <= rb:
+                violations.append(Violation(
+                    key="%s boot.InUse leaves a selectable revision unprotected (kst=%s bst=%s)" % (variant, full["d"]["kst"] or '""', full["d"]["bst"] or '""'),
+                    desc="%s: %s; the pipeline can select kernel %s base %s from this state, so snapstate may garbage-collect "
+                         "a revision the next boot needs (InUseProtects / 'boot never stops')" % (case_key(dv.case), dv.why, sorted(sk), sorted(sb)),
+                    replay={"case": dv.case, "event": dv.rejected}))
+            else:
+                unexplained.append(dv)
+            continue
+        if dv.case["kind"] == "act":
+            states = [("before the first write", _norm(full["d"]))] + \
+                     [("after real write #%d (%s)" % (i + 1, op), st) for i, (op, st) in enumerate(dv.real)]
+            for k, (label, st) in enumerate(states[1:], 1):
+                pipes.append((dv, k, label, {"kind": "pipe", "variant": variant, "d": st, "pres": full["pres"], "start": "fw",
+                                             "cmdtrying": False, "rk": 0, "goodk": sorted(gk), "goodb": sorted(gb)}))
+            if len(states) == 1:
+                unexplained.append(dv)
+        else:
+            b = full["boot"]
+            pipes.append((dv, 0, "initramfs entry", {"kind": "pipe", "variant": variant, "d": _norm(full["d"]), "pres": full["pres"],
+                                                     "start": b["phase"], "cmdtrying": b["cmdtrying"], "rk": b["rk"],
+                                                     "goodk": sorted(gk), "goodb": sorted(gb)}))
+    if pipes:
+        pcs = [p[3] for p in pipes]
+        out = run_driver(ctx, pcs, "pipe_" + name, procs=2)
+        res = {}
+        for e in out:
+            if e.get("ev") == "Pipe":
+                res.setdefault(e["case"], {})[e["pass"]] = e
+        broken = {}
+        for (dv, k, label, pc) in pipes:
+            full = dv.case["full"]
+            _, _, ak, ab = _allowed(full)
+            j = _judge(res.get(pc["id"], {}), ak, ab, excused=bool(full["h"].get("win")))
+            if j and dv.ident() not in broken:
+                broken[dv.ident()] = (dv, k, label, pc, j, res.get(pc["id"]))
+        groups = {}
+        for dv in uniq:
+            if dv.kind == "inuse" or (dv.case["kind"] == "act" and not dv.real and dv.kind != "inuse"):
+                continue
+            hit = broken.get(dv.ident())
+            if not hit:
+                if dv not in unexplained and dv.kind != "probe":
+                    unexplained.append(dv)
+                continue
+            _, k, label, pc, (clause, text), pr = hit
+            full = dv.case["full"]
+            if dv.case["kind"] == "act":
+                gkey = "%s %s real-writes=%s power-loss@%d breaks %s" % (variant, full["act"]["name"],
+                                                                        ",".join(o for o, _ in dv.real), k, clause)
+                desc = ("%s: %s. Power loss %s leaves the REAL state %s; booting it with the real initramfs code: %s. "
+                        "Statement clause: %s." % (case_key(dv.case), dv.why, label, fmt_disk(pc["d"]), text, clause))
+            else:
+                gkey = "%s initramfs deviation breaks %s: %s" % (variant, clause, fmt_disk(full["d"]))
+                desc = "%s: %s. Real pipeline from this state: %s. Statement clause: %s." % (case_key(dv.case), dv.why, text, clause)
+            g = groups.setdefault(gkey, {"n": 0, "desc": desc, "replay": {"case": dv.case, "real_writes": dv.real,
+                                                                         "stuck_prefix_state": pc["d"], "pipeline": pr}})
+            g["n"] += 1
+        for gkey, g in sorted(groups.items()):
+            violations.append(Violation(key=gkey, desc="%s [%d reachable (state, action) cases of this kind]" % (g["desc"], g["n"]),
+                                        replay=g["replay"]))
+    return violations, unexplained
+
+
+def beh_divergences(cases, events):
+    """T->I behaviour replays: verdict lines of the driver -> (divergences, n_ok, real_calls). A divergence is mapped
+    back to the act / init case it belongs to so that it is classified by the same statement oracle."""
     out = []
     ok = 0
     real_calls = 0
@@ -254,16 +428,51 @@ def beh_violations(cases, events):
             real_calls += e.get("real_calls", 0)
             continue
         c = cases[e["case"]]
-        st = c["steps"][e["step"]]
-        prev = c["steps"][e["step"] - 1]["vars"]
-        out.append(Violation(
-            key="%s replay: %s%s from %s" % (c["variant"], e["action"],
-                                            "(%s %d pc=%d)" % (prev["act"]["name"], prev["act"]["arg"], prev["act"]["pc"])
-                                            if prev["act"]["name"] != "idle" else "", fmt_disk(prev["d"])),
-            desc="replay of a TLC behaviour on the real boot code diverged at step %d (%s): %s; real: %s; spec: %s" % (
-                e["step"], e["action"], e["msg"], json.dumps(e.get("got"))[:300], fmt_disk(st["vars"]["d"])),
-            replay={"case": c, "verdict": e}))
+        steps = c["steps"]
+        i = e["step"]
+        derived = None
+        if steps[i]["action"] in ("Step", "End") or steps[i]["action"] in ACTIONS + ("SetNextKStale16", "SetNextBStale16"):
+            j = i
+            while j > 0 and steps[j]["vars"]["act"]["pc"] != 0:
+                j -= 1
+            while j > 0 and steps[j]["vars"]["act"]["name"] == "idle":
+                j -= 1
+            if steps[j]["vars"]["act"]["name"] != "idle" and steps[j]["vars"]["act"]["pc"] == 0:
+                derived = {"kind": "act", "variant": c["variant"], "full": steps[j]["vars"]}
+        elif steps[i]["action"] in ("InitNs", "InitBase", "InitKernel"):
+            j = i - 1
+            while j > 0 and steps[j]["vars"]["boot"]["phase"] not in ("ins", "ibase"):
+                j -= 1
+            while j > 0 and steps[j - 1]["vars"]["boot"]["phase"] == "ins":
+                j -= 1
+            if steps[j]["vars"]["boot"]["phase"] in ("ins", "ibase"):
+                derived = {"kind": "init", "variant": c["variant"], "full": steps[j]["vars"]}
+        out.append({"case": c, "verdict": e, "derived": derived,
+                    "text": "replay of a TLC behaviour diverged at step %d (%s): %s; real %s" % (
+                        i, e["action"], e["msg"], json.dumps(e.get("got"))[:200])})
     return out, ok, real_calls
+
+
+def check_cases(ctx, variant, cases, name, procs=1, trace=True):
+    """All oracles for a set of act / init cases: real execution, direct comparison, TLC trace validation, statement
+    oracle for whatever deviates. -> dict(violations, unexplained, ncases, nlines, events)"""
+    events = run_driver(ctx, cases, name, procs=procs)
+    devs = direct_deviations(variant, cases, events)
+    skip = {dv.case["id"] for dv in devs}
+    ncases = nlines = 0
+    if trace:
+        tdevs, ncases, nlines = validate_events(ctx, variant, cases, events, name, skip=skip)
+        devs += tdevs
+        if any(dv.kind == "initramfs" for dv in tdevs):
+            # TLC stops at the first rejection per run: look at every initramfs case directly
+            have = {dv.ident() for dv in devs}
+            for c in cases:
+                if c["kind"] == "init":
+                    dv = Deviation(c, "probe", "initramfs cases of this configuration deviate; direct statement check")
+                    if dv.ident() not in have:
+                        devs.append(dv)
+    v, un = classify(ctx, variant, devs, name) if devs else ([], [])
+    return {"violations": v, "unexplained": un, "ncases": ncases, "nlines": nlines, "events": events, "ndev": len(devs)}
 
 
 # ------------------------------------------------------------------ grub.cfg
